@@ -192,3 +192,52 @@ def builder_expected_tail(given, section):
     unused = sorted((k for k in section if k not in SETTING_KEYS), key=lambda k: k.encode())
     missing = [] if pick("yacckind") != [0] else ["yacckind"]
     return [[0], pick("yacckind"), [], [], pick("recoverer"), [], pick("serialisation_format"), keys(unused), keys(missing)]
+
+
+# ---- family lex_builder_sequence: the header sequence of CTLexerBuilder::build_inner (C13/LexSettingsModel.v) -----------
+LEX_FLAG_KEYS = ["dot_matches_new_line", "multi_line", "octal", "posix_escapes", "allow_wholeline_comments",
+                 "case_insensitive", "swap_greed", "ignore_whitespace", "unicode", "size_limit", "dfa_size_limit", "nest_limit"]
+LEX_KEYS = ["lexerkind"] + LEX_FLAG_KEYS
+LEX_SECTION_EXTRA = ["test_files", "yacckind", "zzz", "a", "octa", "octals", "lexerkin", "unicod", "nest_limits"]
+
+
+def lex_builder_sequence(rng):
+    """-> (sequence, lk, given, section): map 0 = the builder's header (Header::new(); set_default_merge_behavior(Ours);
+    one `insert` per flag setter called), map 1 = the parsed %grmtools section (inserts only); merge_from(section);
+    mark_used + get of lexerkind and of the 12 flag keys in the order of LexFlags::try_from; unused.
+    lk = the builder's lexerkind FIELD (not a header key)"""
+    lk = rng.randint(0, 9) if rng.random() < 0.5 else None
+    gpool = [k for k in LEX_FLAG_KEYS if rng.random() < 0.3]
+    rng.shuffle(gpool)
+    given = {k: rng.randint(0, 9) for k in gpool}
+    pool = [k for k in LEX_KEYS if rng.random() < 0.35] + [k for k in LEX_SECTION_EXTRA if rng.random() < 0.2]
+    rng.shuffle(pool)
+    section = {k: rng.randint(0, 9) for k in pool}
+    seq = [(8, 0, 2)]
+    seq += [(0, 0, k, given[k]) for k in gpool]
+    seq += [(0, 1, k, section[k]) for k in pool]
+    seq.append((11, 0))
+    for k in LEX_KEYS:
+        seq += [(4, 0, k), (1, 0, k)]
+    seq.append((12, 0))
+    return seq, lk, given, section
+
+
+def lex_builder_expected_tail(lk, given, section):
+    """what C13_lex_settings_in_force says the last 28 results are, and the lexerkind value in force"""
+    def pick(k):
+        v = given[k] if k in given else section.get(k)
+        return [0] if v is None else [1, v]
+
+    def keys(ks):
+        out = [len(ks)]
+        for k in ks:
+            out += [len(k.encode())] + list(k.encode())
+        return out
+    unused = sorted((k for k in set(given) | set(section) if k not in LEX_KEYS), key=lambda k: k.encode())
+    tail = [[0]]
+    for k in LEX_KEYS:
+        tail += [[], pick(k)]
+    tail.append(keys(unused))
+    in_force = lk if lk is not None else section.get("lexerkind")
+    return tail, in_force
